@@ -16,7 +16,15 @@ Proof.
   - intros n Hn. rewrite Es, dom_fmap_L in Hn. by apply H2.
 Qed.
 
-Lemma swap_loops sC : succ sC = succ s0 → keep s0 sC →
+(** the pre-check of [swap] left room for two nodes per dependent x-node *)
+Definition dep_room : Prop :=
+  ∀ T : gset positive, (∀ n, n ∈ T ↔ isdep s0 x n) → room s0 (2 * size T).
+
+Lemma room_relab s k : succ s = relab s0 x <$> succ s0 → max_nodes s = max_nodes s0 →
+  room s0 k → room s k.
+Proof. unfold room. intros -> ->. by rewrite map_size_fmap. Qed.
+
+Lemma swap_loops sC : dep_room → succ sC = succ s0 → keep s0 sC →
   (∀ t n, pred sC !! t = Some n ↔ pred s0 !! t = Some n ∧ n ∉ ox) →
   ∃ sD sE sF dn s6 G XF,
     swap_collect (x + 1) oy sC = (Ok (lk s0 <$> oy), sD) ∧
@@ -25,7 +33,7 @@ Lemma swap_loops sC : succ sC = succ s0 → keep s0 sC →
     swap_dep x (x + 1) dn (lk s0 <$> ox) sF = (Ok (G, XF), s6) ∧
     DepInv s0 x L s6 ∅ G XF.
 Proof.
-  intros Es Hk Hp.
+  intros Hroom Es Hk Hp.
   destruct (collect_y s0 HI x Hy ox oy Hndy Hox Hoy sC Es Hk Hp) as (sD&HrD&EsD&HkD&HpD).
   destruct (up_phase s0 HI x Hy ox oy Hndy Hox Hoy sD EsD HkD HpD) as (sE&HrE&HkE&HsE&HpE).
   destruct (indep_phase s0 HI x Hy ox Hndx Hox sE HkE HsE HpE) as (sF&dn&HrF&HkF&HsF&Hdn&HpF).
@@ -39,10 +47,11 @@ Proof.
   { apply Mid_init; try done. intros t n. rewrite HpF, HT. done. }
   assert (HCF : Counts sF L) by (apply Counts_relab; [done|apply HkF]).
   assert (HD : DepInv s0 x L sF T ∅ ∅).
-  { split; [done|done| | |].
+  { split; [done|done| | | |].
     - intros n Hn. by apply elem_of_empty in Hn.
     - intros n Hn. by apply elem_of_empty in Hn.
-    - intros n H0 [t Hn]. rewrite HsF, lookup_fmap, H0 in Hn. done. }
+    - intros n H0 [t Hn]. rewrite HsF, lookup_fmap, H0 in Hn. done.
+    - apply room_relab; [done|apply HkF|by apply Hroom]. }
   destruct (dep_fold s0 HI x Hy dn L (lk s0 <$> ox) sF T ∅ ∅ HD) as (s6&G&XF&Hr6&HD6).
   - by rewrite lk_fst.
   - intros u v w Hin Hud. apply elem_lk in Hin as [Hu Hin].
